@@ -379,6 +379,17 @@ def extract_type(src, toks, relpath, item, ex):
         raise Undecided('anchor-lost', '%s %s in %s: %d candidates' % (kw, name, relpath, len(hits)))
     k = hits[0]
     j = k
+    if kw == 'const':
+        while toks[j].text != ';':
+            if toks[j].text in ('(', '[', '{'):
+                j = rtok.match_close(toks, j)
+            j += 1
+        text = src[toks[k].start:toks[j].end]
+        ex.pieces.append(Piece('pub ' + text + '\n\n', 'source', name, toks[k].line))
+        ex.functions.append({'const': name, 'file': relpath, 'line': toks[k].line, 'text': text,
+                             'token_sha256': rtok.token_hash(toks[k:j + 1]), 'under_contract': False, 'fn': None,
+                             'props': []})
+        return
     while toks[j].text not in ('{', ';'):
         if toks[j].text in ('(', '['):
             j = rtok.match_close(toks, j)
@@ -386,7 +397,7 @@ def extract_type(src, toks, relpath, item, ex):
     end = rtok.match_close(toks, j) if toks[j].text == '{' else j
     text = src[toks[k].start:toks[end].end]
     # inner doc comments / attributes are kept as they are (comments) or dropped (#[cfg] resolved by R5 is not needed here)
-    ex.pieces.append(Piece(item.get('attrs', '') + text + '\n\n', 'source', name, toks[k].line))
+    ex.pieces.append(Piece(item.get('attrs', '') + ('pub ' if item.get('pub') else '') + text + '\n\n', 'source', name, toks[k].line))
     ex.functions.append({'type': name, 'file': relpath, 'line': toks[k].line,
                          'token_sha256': rtok.token_hash(toks[k:end + 1]), 'under_contract': False, 'fn': None,
                          'props': []})
@@ -515,12 +526,15 @@ def enclosing_mods(toks, k):
 
 def recv_start(toks, dot):
     """toks[dot] is the `.` of a method call; return index of the first token of the receiver
-    expression (postfix chain of idents, paths, calls, fields, `?`)."""
+    expression (postfix chain of idents, paths, calls, index expressions, fields, `?`)."""
     i = dot - 1
+    start = dot
     while i >= 0:
         t = toks[i]
+        if t.kind == 'punct' and t.text == '?':
+            i -= 1
+            continue
         if t.kind == 'punct' and t.text in (')', ']'):
-            # jump to matching open
             depth = 0
             j = i
             while j >= 0:
@@ -531,22 +545,23 @@ def recv_start(toks, dot):
                     if depth == 0:
                         break
                 j -= 1
+            start = j
             i = j - 1
-            # a call's callee / method name precedes
-            continue_chain = True
-        elif t.kind in ('ident', 'num', 'str'):
-            i -= 1
-        elif t.kind == 'punct' and t.text == '?':
-            i -= 1
-            continue
-        else:
+            if i >= 0 and toks[i].kind == 'ident' and toks[i].text not in ('if', 'match', 'while', 'return', 'in'):
+                continue        # callee / indexed name: handled by the ident branch
+            if i >= 0 and toks[i].kind == 'punct' and toks[i].text in (')', ']', '?'):
+                continue        # f(a)(b), a[i][j]
             break
-        # after consuming an operand, see whether chain continues to the left
-        if i >= 0 and toks[i].kind == 'punct' and toks[i].text in ('.', '::'):
-            i -= 1
-            continue
+        if t.kind in ('ident', 'num', 'str'):
+            start = i
+            if i >= 1 and toks[i - 1].kind == 'punct' and toks[i - 1].text in ('.', '::'):
+                i -= 2
+                continue
+            if i >= 1 and toks[i - 1].kind == 'punct' and toks[i - 1].text == '>' :
+                break
+            break
         break
-    return i + 1
+    return start
 
 
 def auto_rewrites(src, toks, s, cb, relpath, fname, spec, ex):
@@ -569,6 +584,13 @@ def auto_rewrites(src, toks, s, cb, relpath, fname, spec, ex):
             new = '_p%d' % counter[0]
             edits.append((toks[i + 1].start, 1, new, 'rewrite:R1'))
             log('R1', i + 1, '|_|', '|%s|' % new)
+        # R1 (for loops): `for _ in` -> `for _iN in` so invariants can name the index
+        if 'R1' in enabled and t.kind == 'ident' and t.text == 'for' and i + 2 <= cb \
+                and toks[i + 1].kind == 'ident' and toks[i + 1].text == '_' and toks[i + 2].text == 'in':
+            counter[0] += 1
+            new = '_i%d' % counter[0]
+            edits.append((toks[i + 1].start, 1, new, 'rewrite:R1'))
+            log('R1', i + 1, 'for _ in', 'for %s in' % new)
         # R2: e.map_err(Into::into)  /  e.map_err(|p| body)
         if 'R2' in enabled and t.kind == 'ident' and t.text == 'map_err' and toks[i - 1].text == '.' \
                 and toks[i + 1].text == '(':
